@@ -93,7 +93,7 @@ def impl_of(ins, addr):
     return o
 
 
-def make_sim(mode, prog, regs=None, mem_words=None, mem_bytes=None, hazard=True, dcache=None, icache=None):
+def make_sim(mode, prog, regs=None, mem_words=None, mem_bytes=None, hazard=True, dcache=None, icache=None, pre_reset=False):
     """prog: list of abstract instructions placed at 0,4,8...; regs: {index: value};
     mem_words: {addr: 32-bit value}, mem_bytes: {addr: byte} — preloaded below any cache."""
     kw = {}
@@ -102,6 +102,9 @@ def make_sim(mode, prog, regs=None, mem_words=None, mem_bytes=None, hazard=True,
     if icache is not None:
         kw["instruction_cache"] = icache
     s = RiscvSimulation(mode=mode, detect_data_hazards=hazard, **kw)
+    if pre_reset:
+        # what every user-visible run has behind it: load_program resets both memory systems (and their caches)
+        s.load_program("")
     s.state.instruction_memory.write_instructions([impl_of(ins, 4 * i) for i, ins in enumerate(prog)])
     if regs:
         r = s.state.register_file.registers
